@@ -24,6 +24,7 @@ EXPLANATION = (
     "override it afterwards, the route/default-route parsers of Router and Firewall read the same keys. NOT decided: "
     "inventory equality for arbitrary scenario files and behavioural identity under re-serialisation."
 )
+TECHNIQUE = "static: key-guard/read agreement, schema-option reader inventory, local dataflow of declared values into constructors, loader sibling agreement"
 ASSUMPTIONS = ["scenario mappings reach from_config as plain dicts in file order (yaml.safe_load)",
                "pydantic ConfigSchema validation rejects unknown keys where extra='forbid'"]
 
